@@ -92,6 +92,11 @@ def check(run: Run) -> None:
 
     check_attribute_fold(run, TermCtx(m, max_depth=2, opaque={"as_literal", "_parse_source_for_lambda"}), m, "C13.R4")
     check_snapshot(Relabel(run, "C13.R4"), TermCtx(m, max_depth=2, opaque={"as_literal", "_parse_source_for_lambda"}), m, m.find_class("_rewrite_captured_vars", in_module="func_adl.util_ast"))
+    # declared defaults are embedded from the registry entry of the function: a later registration under the same name must replace it
+    run.rule("C13.R5", "the registry entry a declared default is read from is the latest registration of that name (C09.R7 re-evaluated)")
+    from ..report import run_stage
+
+    run_stage(run, "c09", only={"C09.R7"})
 
     # ---------------- R2
     _check_entry_points(run, ctx, m)
